@@ -66,16 +66,18 @@ PROPS['C16'] = {
 }
 
 PROPS['C20'] = {
-    'units': ['cfg', 'cfg_all'],
+    'units': ['cfg', 'cfg_all', 'cfgfind'],
     'title': 'CLI options override typeshare.toml',
     'technique': 'Verus postcondition on override_configuration (extracted verbatim, both cargo feature sets): precedence clause per dual setting '
                  '+ frame clause generated for every other leaf field of Config',
     'level_text': 'For all option/config values (strings, maps and vectors of any content): every setting that exists both on the command line and in '
                   'typeshare.toml takes the command-line value when given else the loaded value; every file-only setting (type mappings, decorators, '
                   'constraints, acronyms, no_pointer_slice) reaches generation unchanged; target_os comes from the command line only; Err exactly for '
-                  'Go without a package. Proved for feature sets {} and {go, python}.',
-    'level_note': 'Kernel: override_configuration only. TOML/serde round trip, -g never overwriting, config discovery and the wiring of Config into the '
-                  'back ends are not under contract (reported as undecided parts). Assumed: four outlined expressions, anyhow::ensure! expansion.',
+                  'Go without a package. Proved for feature sets {} and {go, python}. The ancestor-directory search returns the NEAREST directory (from the '
+                  'working directory upwards, the root included) that holds a typeshare.toml, None iff there is none, and terminates.',
+    'level_note': 'Kernel: override_configuration and find_configuration_file. TOML/serde round trip, -g never overwriting, load_config\'s choice between -c and '
+                  'the discovered file, and the wiring of Config into the back ends are not under contract (reported as undecided parts; bounded stand-in '
+                  'cli_config). Assumed: outlined expressions, anyhow::ensure! expansion, Path/PathBuf as component sequences with std-documented push/pop/is_file.',
     'design_ref': 'DESIGN.md section 5 C20',
 }
 
@@ -119,7 +121,7 @@ PROPS['C17'] = {
     'design_ref': 'DESIGN.md section 5 C17',
 }
 PROPS['C07'] = {
-    'units': ['rename', 'topo', 'cfg', 'cfg_all', 'merge', 'write', 'tos', 'deps', 'serdecase', 'recon', 'genloop'], 'kani': ['kint'],
+    'units': ['rename', 'topo', 'cfg', 'cfg_all', 'merge', 'write', 'tos', 'deps', 'serdecase', 'recon', 'genloop', 'cfgfind'], 'kani': ['kint'],
     'title': 'never panics or spins (kernel)',
     'technique': 'panic-freedom (unwrap/index/slice/overflow/callee preconditions) and termination (decreases) obligations of every function put under '
                  'contract for the other properties, with weakest preconditions (Verus); Kani overflow/cast checks on integer.rs',
@@ -166,6 +168,7 @@ PROPS['C09'] = {
 }
 PROPS['C07']['units'].append('recon')
 PROPS['C07']['units'].append('genloop')
+PROPS['C07']['units'].append('cfgfind')
 PROPS['C01'] = {
     'units': ['rename', 'serdecase'],
     'title': 'field wire names equal serde\'s JSON keys (IR kernel)',
